@@ -205,6 +205,9 @@ def snapshot(obj):
     return ("repr", repr(obj))
 
 
+PROBE_BUDGET = 250
+
+
 class Ctx:
     """Per-shard counters.  Check functions call ctx.case(...) once per generated case and
     ctx.fail(...) when the oracle disagrees with the code."""
@@ -272,6 +275,11 @@ class Ctx:
         """Schedule probe: ``fa()`` is suspended at source lines inside the library while another thread runs ``fb()``
         (the same API on other arguments) to completion; both must return what they return when run alone."""
         if every > 1 and spec_hash(spec) % every:
+            return False
+        # a probe costs some forty calls: each shard of a sub-check spends at most PROBE_BUDGET of them (the thorough tier's extra cases
+        # go to the sequential oracles)
+        if self.labels["interleaved_schedule"] >= PROBE_BUDGET:
+            self.labels["interleave_budget_spent"] += 1
             return False
         same = same or (lambda x, y: x == y)
         try:
